@@ -824,7 +824,6 @@ func (x *Exec) modelParamType(mu *UnitSpec, i int) types.Type {
 	return t
 }
 
-
 // transparentModel: a model whose definition is a single field of its first
 // parameter is that field, in callers too.
 func transparentModel(mu *UnitSpec) string {
